@@ -410,6 +410,13 @@ func (s *Store) SetUserinfoWithUserID(_ context.Context, appID string, set model
 		// the lookup fills the setter and then fails (a storage that streams attributes and loses its connection)
 		c.Err = ErrInjected.Error()
 		if u, ok := s.users[userID]; ok {
+			if kind == "partial" {
+				// the connection is lost half way: only the first attributes arrive
+				u.Email, u.FullName, u.UserIDAttr = "", "", ""
+				if len(u.Custom) > 0 {
+					u.Custom = u.Custom[:len(u.Custom)/2]
+				}
+			}
 			applyUser(u, set)
 		}
 		return ErrInjected
@@ -434,6 +441,12 @@ func (s *Store) SetUserinfoWithLoginName(_ context.Context, set models.Attribute
 	if kind == "partial" || kind == "errval" {
 		c.Err = ErrInjected.Error()
 		if u, ok := s.byLogin[loginName]; ok {
+			if kind == "partial" {
+				u.Email, u.FullName, u.UserIDAttr = "", "", ""
+				if len(u.Custom) > 0 {
+					u.Custom = u.Custom[:len(u.Custom)/2]
+				}
+			}
 			applyUser(u, set)
 		}
 		return ErrInjected
